@@ -439,9 +439,16 @@ func (fr *FuncRun) merge(ins []*State) *State {
 	for k := range keys {
 		var vals []Val
 		var rs []string
+		ghostCounter := false
+		if name, isStr := k.v.(string); isStr && k.frame == 0 && (strings.HasPrefix(name, "calls:") || name == "sends") {
+			ghostCounter = true
+		}
 		for i, s := range ins {
 			if v, ok := s.cells[k]; ok {
 				vals = append(vals, v)
+				rs = append(rs, reaches[i])
+			} else if ghostCounter {
+				vals = append(vals, Val{T: "0", S: sInt})
 				rs = append(rs, reaches[i])
 			}
 		}
